@@ -64,6 +64,7 @@ struct Config {
     u64 pct_horizon = 2000;   // estimated decision points per run (PCT)
     double sticky_p = 0.8;    // probability to keep the current thread (sticky)
     u64 max_steps = 400000;   // livelock bound
+    i64 max_sim_ns = 900LL * 1000000000LL; // simulated-time bound (periodic timers keep a stuck run alive forever)
     i64 quantum_max_ns = 2000;
     double stall_p = 0.0;     // per decision point probability of a thread stall fault
     i64 stall_max_ns = 50 * 1000 * 1000;
@@ -109,8 +110,9 @@ int live_thread_count();            // ... that have not finished
 void set_fatal_handler(std::function<void(const std::string& verdict)> fn);
 // description of all threads (for deadlock details)
 std::string describe_threads();
-// Optional hook: lets a scenario turn a deadlock into a property-specific signature.
-void set_deadlock_classifier(std::function<std::pair<std::string, std::string>()> fn);
+// Optional hook: lets a scenario turn a deadlock / livelock / simulated time-out into a property-specific
+// signature (the argument is the verdict: "deadlock", "livelock" or "timeout").
+void set_fatal_classifier(std::function<std::pair<std::string, std::string>(const std::string&)> fn);
 
 // ---- decision points / blocking ----------------------------------------------
 void point(const char* site, const void* addr = nullptr);
